@@ -359,3 +359,30 @@ def run(ck):
     ck.ob("C14-R6", "handleIncoming/parsed-before-next-read", not again, (again[0].loc if again else reads[0].loc), hi,
           "every way from one read to the next passes handler_->onInput" if not again else
           "the read at line %s can be reached again without the bytes of the previous one having been handed to onInput" % again[0].get("l"))
+
+    # ---------------- R7: time-outs are measured on a monotonic clock ----------------
+    ck.rule("C14-R7", "type-level (canonical types of the time stamps and of the clock calls)",
+            "the start of a request (ParserImpl<Request>::time_) and the instant it is compared with in checkIdlePeers are time points of "
+            "std::chrono::steady_clock, obtained from steady_clock::now(): on a clock that can be set (system_clock) a step forward times "
+            "out a request that was completed in time and a step backward keeps a stalled connection for ever", 3)
+    npts = 0
+    for c in prog.class_list:
+        if strip_tmpl(c["name"]) != "Pistache::Http::Private::ParserImpl" or c.get("dependent") or "Request" not in c["name"]:
+            continue
+        for fl in c["fields"]:
+            ct = fl.get("ctype") or fl["type"]
+            if "time_point" in ct:
+                npts += 1
+                ck.ob("C14-R7", "type:%s" % fl["q"].replace("Pistache::Http::", ""), "steady_clock" in ct, "%s:%s" % (c.get("file"), fl.get("line")), "",
+                      "a steady_clock time point" if "steady_clock" in ct else "declared %s: not a monotonic clock" % ct[:100], nontrivial=False)
+    ck.require(npts >= 1, "ParserImpl<Request> has no time-point member")
+    cip = lib.single(prog, "Pistache::Http::TransportImpl::checkIdlePeers")
+    clock_users = [cip] + [f_ for f_ in prog.funcs.values() if (f_.cls or "").startswith("Pistache::Http::Private::ParserImpl<") and "Request" in (f_.cls or "")]
+    nnow = 0
+    for f_ in clock_users:
+        for e in f_.calls(lambda e: re.match(r"^std::chrono::\w+::now$", strip_tmpl(e.get("callee") or ""))):
+            nnow += 1
+            mono = strip_tmpl(e["callee"]) == "std::chrono::steady_clock::now"
+            ck.ob("C14-R7", "now@%s" % f_.base.replace("Pistache::Http::", ""), mono, e.loc, f_,
+                  "steady_clock::now()" if mono else "%s(): the time-out arithmetic follows every adjustment of that clock" % strip_tmpl(e["callee"]))
+    ck.require(nnow >= 2, "clock reads found in checkIdlePeers / the request parser: %d" % nnow)
